@@ -61,6 +61,7 @@ type Stats struct {
 	Unsupported      int `json:"unsupported"`
 	OtherErrors      int `json:"other_errors"`
 	FaultsStruck     int `json:"faults_struck"`
+	CancelIgnored    int `json:"cancel_ignored"` // the request was cancelled, the statement's context was not
 }
 
 // Fault is an injected failure of the next matching statement.
@@ -506,7 +507,13 @@ func (c *conn) arrive(ctx context.Context, kind, q string, args []driver.NamedVa
 		f.struck++
 		f.stats.FaultsStruck++
 		f.mu.Unlock()
-		return nil, cancelled(ctx, ft)
+		if err := cancelled(ctx, ft); err != nil {
+			return nil, err
+		}
+		f.mu.Lock()
+		f.stats.CancelIgnored++
+		f.mu.Unlock()
+		return nil, nil
 	case "lateCancel", "rowsError":
 		f.fault = nil
 		f.struck++
@@ -518,7 +525,10 @@ func (c *conn) arrive(ctx context.Context, kind, q string, args []driver.NamedVa
 	return nil, fmt.Errorf("sqlfake: unknown fault kind %q", ft.Kind)
 }
 
-// cancelled has the request context cancelled and returns what a driver returns then: the context's error.
+// cancelled has the request context cancelled and returns what a driver returns then: the context's error.  When
+// the statement's context does not end with the request's (it is not derived from it), nobody has cancelled the
+// statement: nil, and the statement runs to its normal end.  Cancellation reaches derived contexts before Cancel
+// returns; the wait is only a margin for a context type that hands it on from a goroutine.
 func cancelled(ctx context.Context, ft *Fault) error {
 	if ft.Cancel == nil {
 		return context.Canceled
@@ -527,8 +537,8 @@ func cancelled(ctx context.Context, ft *Fault) error {
 	select {
 	case <-ctx.Done():
 		return ctx.Err()
-	case <-time.After(20 * time.Second): // not a judgment: the statement's context is not derived from the request's
-		return errors.New("sqlfake: the statement's context was not cancelled with the request")
+	case <-time.After(2 * time.Second):
+		return nil
 	}
 }
 
@@ -553,10 +563,12 @@ func (c *conn) ExecContext(ctx context.Context, q string, args []driver.NamedVal
 		n, err = f.runWrite(st, args)
 	}
 	f.count(err)
-	if err != nil {
-		return nil, err
+	if lerr := lateErr(ctx, late); lerr != nil {
+		// the server has answered (with a result or with an error); the caller's context ends before the answer is
+		// read: what the caller gets is the context's error
+		return nil, lerr
 	}
-	if err := lateErr(ctx, late); err != nil {
+	if err != nil {
 		return nil, err
 	}
 	if f.Dialect == PostgreSQL {
